@@ -24,6 +24,37 @@ CHECKS = {
     ),
 }
 
+_RUN_NOTE = ("Trusts cairo-vm's relocated trace and ExecutionResources, the debug_info/metadata exported from the real compile, "
+             "and the harness's derivation of statement instances from trace entries (cross-checked by the StepCount law). "
+             "Inputs are in-range scalars; corpus = own programs, examples/, 120 (quick) / all (thorough) libfunc e2e wrappers.")
+CHECKS["C17"] = dict(
+    level="model_checking",
+    text="Every recorded VM run of the corpus (both ap-change solvers) is validated event by event by TLC against the SierraRun "
+         "specification: control must follow the Sierra CFG through silent (code-less) statements, every statement instance must begin "
+         "at its recorded start offset, every traced pc must lie in a statement range (or be one of the auxiliary `ret`s), and at every "
+         "dynamic `return` of a function with a declared ap change k the observed ap - entry_ap must equal k; statically, each statement's "
+         "recorded range must equal the size of its instructions.",
+    note=_RUN_NOTE,
+    technique="TLA+ spec SierraRun; TLC trace validation of real VM traces (statement events derived from relocated_trace + debug_info)",
+    design_ref="3.3, 5/C17", engine="tlc+cvh")
+CHECKS["C04"] = dict(
+    level="model_checking",
+    text="Every recorded VM run (linear and LP gas solver) is validated by TLC against SierraRun; at Finish the law GasCovers "
+         "(100*steps + 70*rc + 56*rc96 + sum price(b)*uses(b) <= charged + 100, charged = gas given - gas left, or the declared entry cost "
+         "for functions without a gas builtin) and StepBound are evaluated on the real counters. On the unchanged tree the inequality is "
+         "tight (equality) on most runs, so an under-charge of a single step on an executed path is detected.",
+    note=_RUN_NOTE + " Memory holes and blake2s opcode uses are not priced.",
+    technique="TLA+ spec SierraRun (GasCovers/StepBound laws); TLC trace validation of real VM runs with gas ladder",
+    design_ref="3.3, 3.4, 5/C04", engine="tlc+cvh")
+CHECKS["C02"] = dict(
+    level="model_checking",
+    text="Every run of every accepted program (corpus plus the single-point Sierra mutants that ProgramRegistry+metadata+compile still "
+         "accept) on boundary/random in-range inputs and a gas ladder must be accepted by the SierraRun trace specification: it ends in "
+         "Finish(ok|panic) - never a VM error - with control following the Sierra CFG and steps bounded by the gas given.",
+    note=_RUN_NOTE + " Programs using libfuncs outside audited.json are run but a VM failure there is only a diagnostic.",
+    technique="TLA+ spec SierraRun (Completes/FlowOK/StepBound); TLC trace validation of real VM runs incl. accepted Sierra mutants",
+    design_ref="3.3, 5/C02", engine="tlc+cvh")
+
 NOT_YET = "check not built yet in this session (see DESIGN.md section 9 build order); no claim is made"
 
 
